@@ -1542,7 +1542,10 @@ def r_spread(E):
                                 out.add(x.id)
         return out
 
-    for name, fn in sorted(fns.items()):
+    # (the builders, and the methods of the value classes of the module they are written with)
+    methods = {f"{k.name}.{m.name}": m for k in tree.body if isinstance(k, ast.ClassDef) for m in k.body
+               if isinstance(m, ast.FunctionDef)}
+    for name, fn in sorted(list(fns.items()) + list(methods.items())):
         mp = membership_params(fn)
         for n in ast.walk(fn):
             if not (isinstance(n, ast.BinOp) and isinstance(n.op, (ast.Div, ast.FloorDiv))):
